@@ -1238,18 +1238,21 @@ def _opaque_rejecting_call(prog, f, node, relevant, ctx=None, env=None):
         if m:
             names.add(m.group(1))
     for c in f.walk():
-        if not (c.is_call() and c.callee and c.callee.get("repo")) or c.k in ("CXXConstructExpr", "CXXTemporaryObjectExpr"):
+        if not (c.is_call() and c.callee and c.callee.get("repo")):
             continue
+        is_ctor = c.k in ("CXXConstructExpr", "CXXTemporaryObjectExpr")
         if c.callee.get("noexcept") or c.type == "bool":
             continue
         nm = (c.callee.get("qn") or "").rsplit("::", 1)[-1]
-        if nm in ACCESSORS or nm.startswith("operator"):
+        if nm in ACCESSORS or (nm.startswith("operator") and not is_ctor):
             continue
         if not f.precedes(c, node):
             continue
         g = prog.functions.get(c.callee.get("usr"))
         if g is not None and not g.throw_blocks():
             continue
+        if is_ctor and g is None:
+            continue              # implicit / library constructor
         if any(_mentions(a, names) for a in c.call_args()):
             if ctx is not None and env is not None and _callee_checks_pass(prog, ctx, c, env):
                 continue
